@@ -798,8 +798,38 @@ class World:
             return {"error": err}
         raise HarnessError("unknown error form %r" % form)
 
-    def _fn(self, name, params, style, sid, kind, old_names=()):
-        """A generated condition/capture with the given parameter names that hands over to run.hit/ahit."""
+    def _fn(self, name, params, style, sid, kind, old_names=(), callform=None):
+        """A generated condition/capture with the given parameter names that hands over to run.hit/ahit.  ``callform``: the
+        callable is handed to the decorator as a ``functools.partial`` (binding an extra keyword) or as an instance of a class
+        with ``__call__`` instead of a plain function."""
+        fn = self._fn_plain(name, tuple(params) + (("_k",) if callform == "partial" else ()), style, sid, kind, old_names)
+        if callform == "partial":
+            import functools
+
+            return functools.partial(fn, _k=1)
+        if callform == "object":
+            import inspect as _inspect
+
+            if _inspect.iscoroutinefunction(fn):
+
+                class _CallableCondition:
+                    async def __call__(self_, *args, **kwargs):
+                        return await fn(*args, **kwargs)
+
+            else:
+
+                class _CallableCondition:
+                    def __call__(self_, *args, **kwargs):
+                        return fn(*args, **kwargs)
+
+            o = _CallableCondition()
+            sig = _inspect.signature(fn)
+            # the signature a class with an explicit ``__call__(self, <params>)`` would have
+            _CallableCondition.__call__.__signature__ = sig.replace(parameters=[_inspect.Parameter("self_", _inspect.Parameter.POSITIONAL_OR_KEYWORD)] + list(sig.parameters.values()))
+            return o
+        return fn
+
+    def _fn_plain(self, name, params, style, sid, kind, old_names=()):
         run = self.run
         ns = {"_hit": lambda: run.hit(sid, kind), "_ahit": lambda: run.ahit(sid, kind)}
         plist = ", ".join(params)
@@ -869,7 +899,7 @@ class World:
                 continue
             cparams = tuple(x for x in pparams if x != "OLD") if c.get("no_old") else pparams
             dec = icontract.ensure(
-                self._fn("c_" + _san(sid), cparams, c.get("style", "sync"), sid, "post", old_names),
+                self._fn("c_" + _san(sid), cparams, c.get("style", "sync"), sid, "post", old_names, callform=c.get("callform")),
                 description="[[%s]]" % sid,
                 **self._enabled_kw(c),
                 **self._error_kw(sid, c.get("error"), False, tuple(x for x in (c.get("err_params") or ()) if x in pparams))
@@ -890,7 +920,7 @@ class World:
             if c.get("omit"):
                 continue
             dec = icontract.require(
-                self._fn("c_" + _san(sid), params, c.get("style", "sync"), sid, "pre"),
+                self._fn("c_" + _san(sid), params, c.get("style", "sync"), sid, "pre", callform=c.get("callform")),
                 description="[[%s]]" % sid,
                 **self._enabled_kw(c),
                 **self._error_kw(sid, c.get("error"), False)
